@@ -24,6 +24,8 @@ type c08Case struct {
 	First int   `json:"first"`          // table code of the oldest table
 	Opts  int   `json:"opts"`           // options per key: 3 = {absent,value,tombstone}, 4 adds the empty value
 	Only  []int `json:"only,omitempty"` // replay: exact list of table codes
+	// Lists: a batch of exact lists (the deep-stack family: 4 to 6 tables with at most one key each)
+	Lists [][]int `json:"lists,omitempty"`
 	// Legacy > 0: stacks that contain fixture table Legacy-1 of the repository (written by earlier versions of the
 	// library); Pos = 0 fixture oldest, 1 fixture newest, 2 fixture between two current tables (First = oldest code)
 	Legacy int `json:"legacy,omitempty"`
@@ -183,6 +185,29 @@ func (c c08) Run(ctx *core.Ctx) error {
 			cases = append(cases, core.J(c08Case{K: k, First: f, Opts: 13}))
 		}
 	}
+	// deep stacks: 4 tables with at most one key each (value or tombstone, or no key at all), 5 tables with at most
+	// one value each, 6 tables with exactly one value each - the merge heap gets a second and a third level, and a
+	// later table's first key can be smaller than its heap parent and the root
+	one := []int{0, 1, 2, 3, 6, 9, 18} // base-3 codes with at most one non-zero digit
+	var deep [][]int
+	var recDeep func(cur []int, k int, alpha []int)
+	recDeep = func(cur []int, k int, alpha []int) {
+		if len(cur) == k {
+			deep = append(deep, append([]int{}, cur...))
+			return
+		}
+		for _, a := range alpha {
+			recDeep(append(cur, a), k, alpha)
+		}
+	}
+	recDeep(nil, 4, one)
+	recDeep(nil, 5, []int{0, 1, 3, 9})
+	recDeep(nil, 6, []int{1, 3, 9})
+	for i := 0; i < len(deep); i += 48 {
+		cases = append(cases, core.J(c08Case{K: 6, Opts: 3, Lists: deep[i:min(i+48, len(deep))]}))
+	}
+	ctx.Ev.Bounds["deep_stack_lists"] = len(deep)
+	ctx.Ev.Bounds["deep_stack_max_tables"] = 6
 	// stacks that contain a table written by an earlier version of the library (the repository's fixtures)
 	nl := 0
 	for fi := range legacyTables() {
@@ -197,7 +222,7 @@ func (c c08) Run(ctx *core.Ctx) error {
 	}
 	ctx.Ev.Bounds["legacy_fixture_tables"] = len(legacyTables())
 	ctx.Ev.Bounds["comparator_families"] = "bytes; ASCII case-insensitive (keys a/A, b/B: equal under the comparator, different as bytes)"
-	ctx.Ev.Rule = "every list of k tables (oldest to newest), each table assigning to each key of {\"\", a, b} one of {absent, value v<slot><key>, tombstone} (second family adds the empty value): stacked reader Get/Contains for 5 keys, Scan, ScanStartingAt and ScanRange for all bounds in {\"\",0,a,aa,b,c}; MergeCompact with both exported reductions into a fresh table and read back; Merge for key-disjoint lists. The same for lists of up to 2 tables opened with the on-disk index loader, for lists of up to 3 tables under a case-insensitive comparator (per key slot absent / either spelling as value or tombstone), and for stacks of each legacy fixture table of the repository with every current table over keys {below, inside, max, above} (fixture oldest, newest, or between two current tables). distinct = list of table codes; non-trivial = at least two tables share a key"
+	ctx.Ev.Rule = "every list of k tables (oldest to newest), each table assigning to each key of {\"\", a, b} one of {absent, value v<slot><key>, tombstone} (second family adds the empty value): stacked reader Get/Contains for 5 keys, Scan, ScanStartingAt and ScanRange for all bounds in {\"\",0,a,aa,b,c}; MergeCompact with both exported reductions into a fresh table and read back; Merge for key-disjoint lists. Plus deep stacks: every list of 4 tables with at most one key each (value or tombstone), of 5 tables with at most one value each and of 6 tables with exactly one value each (second and third heap level). The same for lists of up to 2 tables opened with the on-disk index loader, for lists of up to 3 tables under a case-insensitive comparator (per key slot absent / either spelling as value or tombstone), and for stacks of each legacy fixture table of the repository with every current table over keys {below, inside, max, above} (fixture oldest, newest, or between two current tables). distinct = list of table codes; non-trivial = at least two tables share a key"
 	ctx.Ev.Bounds["max_tables_3_options"] = map[bool]int{false: 3, true: 4}[ctx.Tier == "thorough"]
 	ctx.Ev.Bounds["max_tables_4_options"] = k4
 	rs := ctx.Pmap(cases)
@@ -241,7 +266,9 @@ func (c c08) Case(w *core.WCtx, payload json.RawMessage) core.Result {
 	}
 	codes := make([]int, cs.K)
 	var lists [][]int
-	if cs.Only != nil {
+	if cs.Lists != nil {
+		lists = cs.Lists
+	} else if cs.Only != nil {
 		lists = [][]int{cs.Only}
 	} else if cs.K == 0 {
 		lists = [][]int{{}}
